@@ -390,26 +390,26 @@ Proof.
   destruct (joint_next w t j) as [[w1 j1']|] eqn:N; [|discriminate].
   intro E. eapply IH; [|exact E]. eapply joint_next_WInv; eauto.
 Qed.
-Lemma set_loop_WInv f : forall w t j w', WInv w -> set_loop f w t j = Some w' -> WInv w'.
+Lemma set_loop_WInv f : forall w t j w' b, WInv w -> set_loop f w t j = Some (w', b) -> WInv w'.
 Proof.
-  induction f as [|f IH]; intros w t j w' H; simpl; destruct (jok j);
+  induction f as [|f IH]; intros w t j w' b H; simpl; destruct (jok j);
     try discriminate; try (intro E; inversion E; subst; auto; fail).
   destruct (js1 j) as [l|].
   - destruct (joint_next (seth w (hset (hp w) l (jval (js2 j)))) t j) as [[w2 j']|] eqn:N; [|discriminate].
     intro E. eapply IH; [|exact E]. eapply joint_next_WInv; [|exact N]. apply WInv_seth; auto.
-  - destruct (at_ (hp w) (getv w t) (jidx j)) as [[[h' v'] l]|] eqn:A; [|discriminate].
+  - destruct (at_ (hp w) (getv w t) (jidx j)) as [[[h' v'] l]|] eqn:A; [|intro E; inversion E; subst; auto].
     destruct (joint_next (seth (setv w t v') (hset h' l (jval (js2 j)))) t j) as [[w2 j']|] eqn:N; [|discriminate].
     intro E. eapply IH; [|exact E]. eapply joint_next_WInv; [|exact N].
     apply WInv_seth, WInv_setv; auto. eapply Inv_at; [|exact A]. apply WInv_getv; auto.
 Qed.
-Lemma set_vec_WInv w t o w' : WInv w -> set_vec w t o = Some w' -> WInv w'.
+Lemma set_vec_WInv w t o w' b : WInv w -> set_vec w t o = Some (w', b) -> WInv w'.
 Proof.
   intro H. unfold set_vec. destruct o as [u|d].
   - destruct (Nat.eqb t u); [intro E; inversion E; subst; auto|].
-    destruct (negb (dim (getv w t) =? dim (getv w u))); [discriminate|].
+    destruct (negb (dim (getv w t) =? dim (getv w u))); [intro E; inversion E; subst; auto|].
     destruct (joint_begin w t (OS u)) as [[w1 j]|] eqn:B; [|discriminate].
     intro E. eapply set_loop_WInv; [|exact E]. eapply joint_begin_WInv; eauto.
-  - destruct (negb (dim (getv w t) =? Z.of_nat (length d))); [discriminate|].
+  - destruct (negb (dim (getv w t) =? Z.of_nat (length d))); [intro E; inversion E; subst; auto|].
     destruct (joint_begin w t (OD d)) as [[w1 j]|] eqn:B; [|discriminate].
     intro E. eapply set_loop_WInv; [|exact E]. eapply joint_begin_WInv; eauto.
 Qed.
@@ -488,8 +488,8 @@ Proof.
   - (* SetAt *) destruct (at_ (hp w) (getv w t) i) as [[[h' v'] l]|] eqn:E; simpl; auto.
     apply WInv_setv; auto. eapply Inv_at; eauto.
   - (* ConstAt *) destruct (const_at (hp w) (getv w t) i); simpl; auto.
-  - (* SetV *) destruct (set_vec w t o) as [w'|] eqn:E; simpl; auto. eapply set_vec_WInv; eauto.
-  - (* SETV *) destruct (set_vec w t (OS u)) as [w'|] eqn:E; simpl; auto. eapply set_vec_WInv; eauto.
+  - (* SetV *) destruct (set_vec w t o) as [[w' b]|] eqn:E; simpl; auto. eapply set_vec_WInv; eauto.
+  - (* SETV *) destruct (set_vec w t (OS u)) as [[w' b]|] eqn:E; simpl; auto. eapply set_vec_WInv; eauto.
   - (* Reset *) simpl. auto.
   - (* ReverseOrder *) simpl. apply WInv_setv; auto. apply Inv_reverse_order; auto.
   - (* Swap *) simpl. destruct R as (R1 & R2 & R3). apply WInv_setv; auto. apply Inv_swap; auto.
